@@ -1,4 +1,6 @@
 import Norad.Props.C01
+import Mathlib.Data.List.Perm.Basic
+import Mathlib.Data.List.Nodup
 /-!
 # C04 — load, save, load again: input is normalised without loss
 
@@ -11,9 +13,9 @@ to the front and the others keep their order (`layers_default_moved_to_front`, i
 Full-strength statement for arbitrary accepted trees,
   `loadFont t = .ok f → ∃ t' f', saveFont f = .ok t' ∧ loadFont t' = .ok f' ∧ FontEquiv f f'`,
 is FALSE on the tree: `objectlibs_key_without_fontinfo_counterexample` (recorded finding).
-OPEN (not proved here): `loaded_is_representable` for arbitrary trees under the guards "layer
-directories and glif file names listed once, the reserved lib key only together with fontinfo.plist,
-numbers outside (0, ε]"; the correspondence covers it (every generated tree and every testdata UFO).
+Under the guards "layer directories and glif file names listed once, the reserved lib key only together
+with fontinfo.plist" every loaded font is representable (`loaded_is_representable`) and, with the
+number guards, `load_save_load_fixed_point` holds for arbitrary accepted trees.
 Glif format 2 of what is written is below this model (glyphs are tokens): checked by the oracle.
 -/
 namespace RT
@@ -204,6 +206,313 @@ theorem loaded_is_v3 (t : Tree) (f : Font) (h : loadFont t = .ok f) : f.fv = 3 :
         | panic s => simp [hd] at h
       | err e => simp [hl] at h
       | panic s => simp [hl] at h
+
+theorem nodupS_iff (l : List String) : nodupS l = true ↔ l.Nodup := by
+  induction l with
+  | nil => simp [nodupS]
+  | cons a r ih => simp [nodupS, ih]
+
+theorem attachLibs_ids (gs : List GuideF) : ∀ (d : Dict) (gs' : List Guide), attachLibs gs d = .ok gs' →
+    gs'.map (·.id) = gs.map (·.id) ∧ LibsHaveIds gs' := by
+  induction gs with
+  | nil =>
+    intro d gs' h
+    simp only [attachLibs] at h
+    cases h
+    exact ⟨rfl, by intro g hg; cases hg⟩
+  | cons g r ih =>
+    intro d gs' h
+    simp only [attachLibs] at h
+    cases hid : g.id with
+    | none =>
+      simp only [hid] at h
+      cases hr : attachLibs r d with
+      | ok gs0 =>
+        simp only [hr] at h
+        cases h
+        obtain ⟨h1, h2⟩ := ih d gs0 hr
+        refine ⟨by simp [h1, hid], ?_⟩
+        intro x hx l hl
+        rcases List.mem_cons.1 hx with rfl | hx'
+        · cases hl
+        · exact h2 x hx' l hl
+      | err e => simp [hr] at h
+      | panic s => simp [hr] at h
+    | some i =>
+      simp only [hid] at h
+      cases hlk : lookupKV i d with
+      | none =>
+        simp only [hlk] at h
+        cases hr : attachLibs r d with
+        | ok gs0 =>
+          simp only [hr] at h
+          cases h
+          obtain ⟨h1, h2⟩ := ih d gs0 hr
+          refine ⟨by simp [h1, hid], ?_⟩
+          intro x hx l hl
+          rcases List.mem_cons.1 hx with rfl | hx'
+          · cases hl
+          · exact h2 x hx' l hl
+        | err e => simp [hr] at h
+        | panic s => simp [hr] at h
+      | some v =>
+        simp only [hlk] at h
+        cases v with
+        | dict l0 =>
+          simp only at h
+          cases hr : attachLibs r (eraseKV i d) with
+          | ok gs0 =>
+            simp only [hr] at h
+            cases h
+            obtain ⟨h1, h2⟩ := ih _ gs0 hr
+            refine ⟨by simp [h1, hid], ?_⟩
+            intro x hx l hl
+            rcases List.mem_cons.1 hx with rfl | hx'
+            · exact ⟨i, rfl⟩
+            · exact h2 x hx' l hl
+          | err e => simp [hr] at h
+          | panic s => simp [hr] at h
+        | str _ => simp at h
+        | int _ => simp at h
+        | real _ => simp at h
+        | bool _ => simp at h
+        | data _ => simp at h
+        | date _ => simp at h
+        | arr _ => simp at h
+
+theorem plainGuides_ids (gs : List GuideF) :
+    (plainGuides gs).map (·.id) = gs.map (·.id) ∧ LibsHaveIds (plainGuides gs) := by
+  refine ⟨by simp [plainGuides, List.map_map, Function.comp_def], ?_⟩
+  intro g hg l hl
+  simp only [plainGuides, List.mem_map] at hg
+  obtain ⟨g0, _, rfl⟩ := hg
+  cases hl
+
+/-- what `loadInfo` returns: identifiers unique, libs only on guidelines with identifiers, the
+    reserved key gone from the lib -/
+theorem loadInfo_valid (i : InfoF) (lib : Dict) (info : Info) (lib' : Dict)
+    (h : loadInfo i lib = .ok (info, lib')) :
+    idsNodup ((info.guides.getD []).map (·.id)) = true ∧ LibsHaveIds (info.guides.getD []) ∧
+    lookupKV objectLibsKey lib' = none := by
+  unfold loadInfo at h
+  split at h
+  · cases h
+  · rename_i hn
+    simp only [Bool.not_eq_true, Bool.not_eq_false'] at hn
+    have hn' : idsNodup ((i.guides.getD []).map (·.id)) = true := by
+      cases hh : idsNodup ((i.guides.getD []).map (·.id)) <;> simp_all
+    cases hlk : lookupKV objectLibsKey lib with
+    | none =>
+      simp only [hlk] at h
+      cases h
+      refine ⟨?_, ?_, hlk⟩
+      · cases hg : i.guides with
+        | none => rfl
+        | some gs => rw [hg] at hn'; simpa [(plainGuides_ids gs).1] using hn'
+      · cases hg : i.guides with
+        | none => intro g hg'; cases hg'
+        | some gs => simpa using (plainGuides_ids gs).2
+    | some v =>
+      simp only [hlk] at h
+      cases v with
+      | dict ol =>
+        simp only at h
+        cases hg : i.guides with
+        | none =>
+          simp only [hg] at h
+          cases h
+          exact ⟨rfl, (by intro g hg'; cases hg'), lookupKV_erase_self _ _⟩
+        | some gs =>
+          simp only [hg] at h
+          cases ha : attachLibs gs ol with
+          | ok gs' =>
+            simp only [ha] at h
+            cases h
+            obtain ⟨h1, h2⟩ := attachLibs_ids gs ol gs' ha
+            rw [hg] at hn'
+            exact ⟨by simpa [h1] using hn', by simpa using h2, lookupKV_erase_self _ _⟩
+          | err e => simp [ha] at h
+          | panic s => simp [ha] at h
+      | str _ => simp at h
+      | int _ => simp at h
+      | real _ => simp at h
+      | bool _ => simp at h
+      | data _ => simp at h
+      | date _ => simp at h
+      | arr _ => simp at h
+
+theorem loadGlyphs_files (d : LayerDirF) : ∀ (c : List (String × String)) (gs : List GlyphE),
+    loadGlyphs d c = some gs → gs.map (·.file) = c.map (·.2) := by
+  intro c
+  induction c with
+  | nil => intro gs h; simp only [loadGlyphs] at h; cases h; rfl
+  | cons e r ih =>
+    intro gs h
+    obtain ⟨n, file⟩ := e
+    simp only [loadGlyphs] at h
+    cases hl : lookupS file d.glifs with
+    | none => simp [hl] at h
+    | some tok =>
+      cases hr : loadGlyphs d r with
+      | none => simp [hl, hr] at h
+      | some gs0 =>
+        simp only [hl, hr] at h
+        cases h
+        simp [ih gs0 hr]
+
+/-- every loaded layer has the name and directory of its `layercontents.plist` entry, in order, and
+    its glif file names are those of `contents.plist` -/
+theorem loadLayers_shape (t : Tree) : ∀ (lc : List (String × String)) (ls : List Layer),
+    loadLayers t lc = .ok ls →
+    ls.map (·.dir) = lc.map (·.2) ∧
+    ∀ l ∈ ls, ∃ d, lookupS l.dir t.dirs = some d ∧ l.glyphs.map (·.file) = d.contents.map (·.2) := by
+  intro lc
+  induction lc with
+  | nil => intro ls h; simp only [loadLayers] at h; cases h; exact ⟨rfl, by intro l hl; cases hl⟩
+  | cons e r ih =>
+    intro ls h
+    obtain ⟨n, dir⟩ := e
+    simp only [loadLayers] at h
+    cases hd : lookupS dir t.dirs with
+    | none => simp [hd] at h
+    | some d =>
+      simp only [hd] at h
+      cases hl : loadLayer n dir d with
+      | none => simp [hl] at h
+      | some l =>
+        cases hr : loadLayers t r with
+        | ok ls0 =>
+          simp only [hl, hr] at h
+          cases h
+          obtain ⟨h1, h2⟩ := ih ls0 hr
+          have hld : l.dir = dir ∧ l.glyphs.map (·.file) = d.contents.map (·.2) := by
+            unfold loadLayer at hl
+            cases hg : loadGlyphs d d.contents with
+            | none => simp [hg] at hl
+            | some gs =>
+              simp only [hg] at hl
+              cases hl
+              exact ⟨rfl, loadGlyphs_files d _ gs hg⟩
+          refine ⟨by simp [h1, hld.1], ?_⟩
+          intro x hx
+          rcases List.mem_cons.1 hx with rfl | hx'
+          · exact ⟨d, by rw [hld.1]; exact hd, hld.2⟩
+          · exact h2 x hx'
+        | err e => simp [hl, hr] at h
+        | panic s => simp [hl, hr] at h
+
+theorem defaultFirst_shape (ls ls' : List Layer) (h : defaultFirst ls = .ok ls') :
+    ls'.Perm ls ∧ ∃ l r, ls' = l :: r ∧ l.dir = glyphsDir := by
+  unfold defaultFirst at h
+  cases hf : findDefault ls with
+  | none => simp [hf] at h
+  | some i =>
+    simp only [hf] at h
+    obtain ⟨d, h1, h2, _⟩ := findDefault_spec ls i hf
+    simp only [h1] at h
+    cases h
+    have hi : i < ls.length := by
+      rcases Nat.lt_or_ge i ls.length with hlt | hge
+      · exact hlt
+      · rw [List.getElem?_eq_none hge] at h1; cases h1
+    have hd : ls[i] = d := by
+      rw [List.getElem?_eq_getElem hi] at h1; exact Option.some.inj h1
+    refine ⟨?_, d, _, rfl, h2⟩
+    rw [← hd]
+    exact List.getElem_cons_eraseIdx_perm hi
+
+/-- **C04, arbitrary accepted trees.**  Whatever `loadFont` returns for a tree that lists every layer
+    directory once, every glif file once per layer, and holds the reserved lib key only together with
+    a fontinfo.plist, is a font `saveFont` accepts (the structural half of "everything accepted by the
+    reader is representable by the writer"; the number guards are separate) -/
+theorem loaded_is_representable (t : Tree) (f : Font) (h : loadFont t = .ok f)
+    (hdirs : nodupS (t.layercontents.map (·.2)) = true)
+    (hfiles : ∀ e ∈ t.dirs, nodupS (e.2.contents.map (·.2)) = true)
+    (hkey : t.fontinfo.isSome = true ∨ lookupKV objectLibsKey (t.lib.getD []) = none) :
+    ValidFont f := by
+  have hfv := loaded_is_v3 t f h
+  unfold loadFont at h
+  -- the layer half is the same in both branches
+  have layerHalf : ∀ ls layers, loadLayers t t.layercontents = .ok ls → defaultFirst ls = .ok layers →
+      nodupS (layers.map (·.dir)) = true ∧ (∃ l r, layers = l :: r ∧ l.dir = glyphsDir) ∧
+      ∀ l ∈ layers, nodupS (l.glyphs.map (·.file)) = true := by
+    intro ls layers hl hd
+    obtain ⟨h1, h2⟩ := loadLayers_shape t _ ls hl
+    obtain ⟨hp, hfirst⟩ := defaultFirst_shape ls layers hd
+    refine ⟨?_, hfirst, ?_⟩
+    · rw [nodupS_iff] at hdirs ⊢
+      rw [← h1] at hdirs
+      exact (List.Perm.nodup_iff (hp.map _)).2 hdirs
+    · intro l hl'
+      obtain ⟨d, hd1, hd2⟩ := h2 l (hp.subset hl')
+      rw [hd2]
+      -- the directory found by lookup is one of the tree's directories
+      have : ∀ (ds : List (String × LayerDirF)), lookupS l.dir ds = some d → (l.dir, d) ∈ ds := by
+        intro ds
+        induction ds with
+        | nil => intro hh; simp [lookupS] at hh
+        | cons x xs ihx =>
+          intro hh
+          obtain ⟨k, v⟩ := x
+          simp only [lookupS] at hh
+          split at hh
+          · rename_i hk; cases hh; subst hk; exact List.mem_cons_self ..
+          · exact List.mem_cons_of_mem _ (ihx hh)
+      exact hfiles _ (this t.dirs hd1)
+  cases hfi : t.fontinfo with
+  | none =>
+    simp only [hfi] at h
+    cases hl : loadLayers t t.layercontents with
+    | ok ls =>
+      simp only [hl] at h
+      cases hd : defaultFirst ls with
+      | ok layers =>
+        simp only [hd] at h
+        cases h
+        obtain ⟨a, b, c⟩ := layerHalf ls layers hl hd
+        have hk : lookupKV objectLibsKey (t.lib.getD []) = none := by
+          rcases hkey with hk | hk
+          · rw [hfi] at hk; cases hk
+          · exact hk
+        exact { fv := rfl, noKey := hk, ids := rfl, libIds := (by intro g hg; cases hg),
+                dirs := a, defFirst := b, files := c }
+      | err e => simp [hd] at h
+      | panic s => simp [hd] at h
+    | err e => simp [hl] at h
+    | panic s => simp [hl] at h
+  | some i =>
+    simp only [hfi] at h
+    cases hli : loadInfo i (t.lib.getD []) with
+    | err e => simp [hli] at h
+    | panic s => simp [hli] at h
+    | ok p =>
+      obtain ⟨info, lib⟩ := p
+      simp only [hli] at h
+      obtain ⟨i1, i2, i3⟩ := loadInfo_valid i _ info lib hli
+      cases hl : loadLayers t t.layercontents with
+      | ok ls =>
+        simp only [hl] at h
+        cases hd : defaultFirst ls with
+        | ok layers =>
+          simp only [hd] at h
+          cases h
+          obtain ⟨a, b, c⟩ := layerHalf ls layers hl hd
+          exact { fv := rfl, noKey := i3, ids := i1, libIds := i2, dirs := a, defFirst := b, files := c }
+        | err e => simp [hd] at h
+        | panic s => simp [hd] at h
+      | err e => simp [hl] at h
+      | panic s => simp [hl] at h
+
+/-- **C04, model level.**  Every accepted tree inside the guards: the loaded font is saved without
+    error, the result loads, and the two loaded fonts are the same font (equal up to the creator tag —
+    not part of `FontEquiv` — and CR LF in the feature text; numbers within tolerance) -/
+theorem load_save_load_fixed_point (t : Tree) (f : Font) (h : loadFont t = .ok f)
+    (hdirs : nodupS (t.layercontents.map (·.2)) = true)
+    (hfiles : ∀ e ∈ t.dirs, nodupS (e.2.contents.map (·.2)) = true)
+    (hkey : t.fontinfo.isSome = true ∨ lookupKV objectLibsKey (t.lib.getD []) = none)
+    (hn : NumbersOK f) :
+    ∃ t' f', saveFont f = .ok t' ∧ loadFont t' = .ok f' ∧ FontEquiv f f' :=
+  font_roundtrip f (loaded_is_representable t f h hdirs hfiles hkey) hn
 
 /-- the tree of the recorded finding: lib.plist with the reserved key, no fontinfo.plist -/
 def objLibsNoInfoTree : Tree where
